@@ -19,6 +19,7 @@ pub struct Norm {
     pub panic_sites: Vec<Value>,
     pub index_recv: Vec<String>,
     pub copied_to_map: bool,
+    pub opaque_into: bool,
     pub drop_calls: Vec<String>,
     pub opaque_macros: Vec<String>,
     pub rename_calls: Vec<(String, String)>,
@@ -345,6 +346,7 @@ impl Norm {
             panic_sites: vec![],
             index_recv: strs("index_recv"),
             copied_to_map: req["copied_to_map"].as_bool().unwrap_or(false),
+            opaque_into: req["opaque_into"].as_bool().unwrap_or(false),
             drop_calls: strs("drop_calls"),
             opaque_macros: strs("opaque_macros"),
             rename_calls: req["rename_calls"]
@@ -1084,6 +1086,13 @@ impl VisitMut for Norm {
                     }
                 }
                 match name.as_str() {
+                    // N2 (option opaque_into=1): `X.into()` is some value of the target type (an unconstrained conversion)
+                    "into" if mc.args.is_empty() && self.opaque_into => {
+                        let r = (*mc.receiver).clone();
+                        *e = parse_quote!(hq_into(#r));
+                        self.log("N2-opaque-into", sp);
+                        return;
+                    }
                     "unwrap" if mc.args.is_empty() => {
                         self.site("unwrap", sp);
                         if self.diverge {
